@@ -282,3 +282,89 @@ def run_c18(prop, tier, seed):
 
 def run(prop, tier, seed):  # noqa: F811
     return {"C09": run_c09, "C19": run_c19, "C18": run_c18}[prop](prop, tier, seed)
+
+
+# ---------------------------------------------------------------------------------------------------------------------
+def async_orders():
+    """every order of the environment's steps around one call: submit error; server outcome (ok / fail / silent);
+    the deadline before the completion, between its two statements, after it, or never"""
+    out = [[{"a": "Submit", "ok": False}, {"a": "Quiesce"}],
+           [{"a": "Submit", "ok": True}, {"a": "Deadline"}, {"a": "Quiesce"}]]          # silent server
+    for o in ("ok", "fail"):
+        cb = [{"a": "CbStart", "o": o}, {"a": "CbResolve"}, {"a": "CbSend"}]
+        out.append([{"a": "Submit", "ok": True}] + cb + [{"a": "Quiesce"}])
+        for pos in range(0, 4):
+            seq = cb[:pos] + [{"a": "Deadline"}] + cb[pos:]
+            out.append([{"a": "Submit", "ok": True}] + seq + [{"a": "Quiesce"}])
+        # the completion arrives before the caller has even started waiting
+        out.append(cb[:1] + [{"a": "Submit", "ok": True}] + cb[1:] + [{"a": "Quiesce"}])
+    return out
+
+
+def run_c20(prop, tier, seed):
+    t0 = time.time()
+    os.makedirs(vlib.CACHE, exist_ok=True)
+    work = os.path.join(vlib.CACHE, "c20-%d" % os.getpid())
+    shutil.rmtree(work, ignore_errors=True); os.makedirs(work)
+    try:
+        vdrive, _ = vlib.build_harness(work)
+        vlib.spec_copy(work)
+        out, rc, wall = vlib.tlc(work, "AsyncOp", "MCAsync", timeout=600)
+        r = vlib.parse_tlc(out)
+        if r["violated"] or r["error"] or not r.get("complete"):
+            raise vlib.Machinery("AsyncOp.tla does not pass TLC: %s %s" % (r["violated"], r["error"]))
+        # vacuity: with an unbuffered signal channel the same properties must fail
+        out2, rc, _ = vlib.tlc(work, "AsyncOp", "MCAsyncUnbuffered", timeout=600)
+        if not vlib.parse_tlc(out2)["violated"]:
+            raise vlib.Machinery("AsyncOp.tla: the unbuffered variant is not refuted - the properties are vacuous")
+        orders = async_orders()
+        reps = 6 if tier == "quick" else 60          # the caller's select is a race: repeat every order
+        allsch = []
+        for k in range(reps):
+            for j, o in enumerate(orders):
+                allsch.append({"id": len(allsch) + 1, "cfg": {"NVB": 0}, "steps": [{"l": l} for l in o], "driver": "async",
+                               "isolate": False, "nvb": 0, "src": "order#%d" % (j + 1)})
+        lines, summ = vlib.drive(vdrive, allsch, work, shards=8)
+        bad, nev = vlib.monitor(lines, allsch, {"monitor": "MonAsync"}, work)
+        results = {}
+        for t in lines:
+            for e in t.get("evs") or []:
+                if e.get("ev") == "Return":
+                    results[e["result"]] = results.get(e["result"], 0) + 1
+        viols = []
+        rp = os.path.join(vlib.VERIF, "evidence", "replay"); os.makedirs(rp, exist_ok=True)
+        smap = {s["id"]: s for s in allsch}
+        seen = set()
+        for run, line, pid, msg in bad:
+            if (smap[run]["src"], msg) in seen:
+                continue
+            seen.add((smap[run]["src"], msg))
+            dst = os.path.join(rp, "C20-seed%d-run%d.json" % (seed, run))
+            json.dump({"family": "async", "schedule": smap[run], "trace": [t for t in lines if t["run"] == run]}, open(dst, "w"))
+            viols.append((dst, msg, smap[run]["src"]))
+        cov = {"states": r["distinct"], "transitions": r["generated"], "traces_validated_against_impl": len(allsch),
+               "samples": [{"order": " ".join(vlib.lab(l) for l in o)} for o in orders[:4]],
+               "orders": len(orders), "repetitions_of_each_order": reps, "returned_results": results,
+               "observable_events_monitored_by_tlc": nev, "evaluations": len(allsch), "distinct_nontrivial": len(orders),
+               "liveness_checked_by_tlc": ["Returns", "CallbackFinishes"], "vacuity": "unbuffered-signal variant refuted by TLC",
+               "rule": "a case is an order of {submit, server outcome, the two statements of the completion callback, deadline}; "
+                       "the caller's select is a real race, so every order is repeated"}
+        evidence(prop, tier, seed, "model_checking", cov,
+                 ["the real couchbase.NewAsyncOp is driven through the pattern the wrappers of client.go / doc_op.go use (re-stated in the "
+                  "driver); the wrappers themselves need gocbcore agents (rig B)",
+                  "gocbcore invokes a pending operation's callback exactly once, from inside Cancel if the cancel wins (assumed)"],
+                 time.time() - t0, len(viols))
+        print("property=C20 tier=%s: TLC %d states of AsyncOp.tla (safety + liveness; unbuffered variant refuted); %d runs of %d orders on the "
+              "real AsyncOp; results %s; %d violations" % (tier, r["distinct"], len(allsch), len(orders), results, len(viols)))
+        for dst, msg, src in viols[:10]:
+            print("VIOLATION property=C20 replay=%s   (%s; %s)" % (dst, msg, src))
+        return 1 if viols else 0
+    except vlib.Machinery as e:
+        print("MACHINERY-ERROR property=%s %s" % (prop, e))
+        return 2
+    finally:
+        shutil.rmtree(work, ignore_errors=True)
+
+
+def run(prop, tier, seed):  # noqa: F811
+    return {"C09": run_c09, "C19": run_c19, "C18": run_c18, "C20": run_c20}[prop](prop, tier, seed)
